@@ -160,8 +160,8 @@ theorem time_enc (h : Hasher) (t : Int) (hp : 0 < h.prime) :
     have h2 : t % (h.prime : Int) < h.prime := Int.emod_lt_of_pos _ (by omega)
     omega
 
-/-- for a prime above the span of representable instants (years 0..9999 span < 4·10²⁰ ns) distinct instants
-    never share an encoding -/
+/-- for a prime above 4·10²⁰ distinct instants of the symmetric span ±2·10²⁰ ns (the years 0 .. 8307) never share an encoding; the
+    whole range of four-digit years is `instants_never_collide` below -/
 theorem time_inj (h : Hasher) (t₁ t₂ : Int) (x : Nat) (hp : 4 * 10 ^ 20 < h.prime)
     (h1 : -(2 * 10 ^ 20 : Int) ≤ t₁ ∧ t₁ ≤ 2 * 10 ^ 20) (h2 : -(2 * 10 ^ 20 : Int) ≤ t₂ ∧ t₂ ≤ 2 * 10 ^ 20)
     (e1 : enc h (.time t₁) = .ok x) (e2 : enc h (.time t₂) = .ok x) : t₁ = t₂ := by
@@ -397,5 +397,71 @@ theorem rendered_date_injective (z1 z2 : Int) (h1 : 0 ≤ (civilFromDays z1).1) 
 
 /-- not vacuous: day 0 is 1970-01-01, and a leap day before the epoch year's century is rendered in a non-negative year -/
 example : civilFromDays 0 = (1970, 1, 1) ∧ civilFromDays 11016 = (2000, 2, 29) ∧ 0 ≤ (civilFromDays (-719468)).1 := by decide
+
+/-! ### the window the instants of four-digit years lie in, and injectivity of the encoding over it
+
+`time_inj` above takes the symmetric span ±2·10²⁰ ns, which ends in the year 8307: the instants of the years 8308..9999 (which
+`parseRFC3339` accepts) lie above it. The statements below use the window the dates really span, [-63·10¹⁸, 254·10¹⁸] ns
+(0000-01-01 less a day of offset .. 9999-12-31 plus one), whose width is still below 4·10²⁰ and so below the BN254 prime. -/
+
+/-- injectivity of the time encoding over any window narrower than the prime -/
+theorem time_inj_window (h : Hasher) (lo hi t₁ t₂ : Int) (x : Nat) (hp : hi - lo < h.prime)
+    (h1 : lo ≤ t₁ ∧ t₁ ≤ hi) (h2 : lo ≤ t₂ ∧ t₂ ≤ hi)
+    (e1 : enc h (.time t₁) = .ok x) (e2 : enc h (.time t₂) = .ok x) : t₁ = t₂ := by
+  unfold enc at e1 e2
+  simp at e1 e2
+  have hp' : (0 : Int) < h.prime := by omega
+  have a1 := Int.emod_nonneg t₁ (show (h.prime : Int) ≠ 0 by omega)
+  have a2 := Int.emod_nonneg t₂ (show (h.prime : Int) ≠ 0 by omega)
+  have heq : t₁ % (h.prime : Int) = t₂ % (h.prime : Int) := by omega
+  have : (t₁ - t₂) % (h.prime : Int) = 0 := by
+    rw [Int.sub_emod, heq]; simp
+  have hdvd : (h.prime : Int) ∣ (t₁ - t₂) := Int.dvd_of_emod_eq_zero this
+  obtain ⟨k, hk⟩ := hdvd
+  have : k = 0 := by
+    by_cases hk0 : k = 0
+    · exact hk0
+    · exfalso
+      have : (h.prime : Int) * k ≥ h.prime ∨ (h.prime : Int) * k ≤ -(h.prime : Int) := by
+        rcases Int.lt_or_gt_of_ne hk0 with hlt | hgt
+        · right
+          have : k ≤ -1 := by omega
+          calc (h.prime : Int) * k ≤ (h.prime : Int) * (-1) := Int.mul_le_mul_of_nonneg_left this (by omega)
+            _ = -(h.prime : Int) := by omega
+        · left
+          have : 1 ≤ k := by omega
+          calc (h.prime : Int) = (h.prime : Int) * 1 := by omega
+            _ ≤ (h.prime : Int) * k := Int.mul_le_mul_of_nonneg_left this (by omega)
+      omega
+  subst this
+  omega
+
+/-- every instant that a date of a four-digit year, a time of day, a nanosecond fraction and a zone offset of less than a day denote
+    (`instantNs` - what `parseRFC3339` / `parseDate` return) lies in the window -/
+theorem instant_in_window (y m d tod nsec : Nat) (off : Int) (hy : y ≤ 9999) (hm : 1 ≤ m ∧ m ≤ 12) (hd : 1 ≤ d ∧ d ≤ 31)
+    (ht : tod < 86400) (hn : nsec < 1000000000) (ho : -86400 < off ∧ off < 86400) :
+    -(63 * 10 ^ 18 : Int) ≤ instantNs (y, m, d) tod nsec off ∧ instantNs (y, m, d) tod nsec off ≤ 254 * 10 ^ 18 := by
+  unfold instantNs daysFromCivil
+  simp only
+  split <;> split <;> omega
+
+/-- so, for a prime above 4·10²⁰ (BN254's is), two such instants with the same encoding are the same instant - all of the years
+    0000..9999, not only those up to 8307 -/
+theorem instants_never_collide (h : Hasher) (y m d tod nsec y' m' d' tod' nsec' : Nat) (off off' : Int) (x : Nat)
+    (hp : 4 * 10 ^ 20 < h.prime)
+    (hy : y ≤ 9999) (hm : 1 ≤ m ∧ m ≤ 12) (hd : 1 ≤ d ∧ d ≤ 31) (ht : tod < 86400) (hn : nsec < 1000000000)
+    (ho : -86400 < off ∧ off < 86400)
+    (hy' : y' ≤ 9999) (hm' : 1 ≤ m' ∧ m' ≤ 12) (hd' : 1 ≤ d' ∧ d' ≤ 31) (ht' : tod' < 86400) (hn' : nsec' < 1000000000)
+    (ho' : -86400 < off' ∧ off' < 86400)
+    (e1 : enc h (.time (instantNs (y, m, d) tod nsec off)) = .ok x)
+    (e2 : enc h (.time (instantNs (y', m', d') tod' nsec' off')) = .ok x) :
+    instantNs (y, m, d) tod nsec off = instantNs (y', m', d') tod' nsec' off' :=
+  time_inj_window h (-(63 * 10 ^ 18)) (254 * 10 ^ 18) _ _ x (by omega)
+    (instant_in_window y m d tod nsec off hy hm hd ht hn ho)
+    (instant_in_window y' m' d' tod' nsec' off' hy' hm' hd' ht' hn' ho') e1 e2
+
+/-- not vacuous: the last second of 9999 lies in the window and outside `time_inj`'s span -/
+example : instantNs (9999, 12, 31) 86399 999999999 0 ≤ 254 * 10 ^ 18 ∧ ¬ instantNs (9999, 12, 31) 86399 999999999 0 ≤ 2 * 10 ^ 20 := by
+  decide
 
 end Gsp.Props.C04
